@@ -1,2 +1,3 @@
 import BufrProofs.Bits
 import BufrProofs.Expand
+import BufrProofs.Ops
